@@ -13,7 +13,7 @@ import (
 func init() {
 	exec := map[string]func(in In, em *Emitter){
 		"masks": execMasks, "rank": execRank, "rankl": execRankL, "select": execSelect, "selectl": execSelectL, "scan": execScan,
-		"of": execOf, "ofmany": execOfMany, "toarray": execToArray, "join": execJoin, "joinbig": execJoinBig, "slice": execSlice, "slicebig": execSliceBig, "perbig": execPerBig, "ofbig": execOfBig, "scanbig": execScanBig,
+		"of": execOf, "ofmany": execOfMany, "toarray": execToArray, "join": execJoin, "joinbig": execJoinBig, "slice": execSlice, "slicebig": execSliceBig, "perbig": execPerBig, "ofbig": execOfBig, "getbig": execGetBig, "scanbig": execScanBig,
 		"bld": execBuilder,
 	}
 	trivBM := func(k string, in In) bool {
@@ -886,6 +886,32 @@ func execOfBig(in In, em *Emitter) {
 	em.Calls(2 + 4*len(probes))
 }
 
+func execGetBig(in In, em *Emitter) {
+	probes := in.I32s("probes")
+	o := J{}
+	abn := guard(func() {
+		ws := in.BM("bm")
+		var get, get1, sget, sget1 [][]int64
+		for _, i := range probes {
+			sget = append(sget, wordOnes(bitmap.SafeGet(ws, i)))
+			sget1 = append(sget1, wordOnes(bitmap.SafeGet1(ws, i)))
+			if i >= 0 && int64(i) < int64(len(ws))*64 {
+				get = append(get, wordOnes(bitmap.Get(ws, i)))
+				get1 = append(get1, wordOnes(bitmap.Get1(ws, i)))
+			} else {
+				get = append(get, []int64{})
+				get1 = append(get1, []int64{})
+			}
+		}
+		o["get"], o["get1"], o["sget"], o["sget1"] = get, get1, sget, sget1
+	})
+	if abn != "" {
+		o = J{}
+	}
+	em.Emit("getbig", J{"in": in.m, "out": o, "abn": abn})
+	em.Calls(4 * len(probes))
+}
+
 func execOf(in In, em *Emitter) {
 	pos := in.I32s("pos")
 	hasn := in.Bool("hasn")
@@ -1013,6 +1039,13 @@ func genC12(g *Gen) {
 	r := g.R
 	if !g.Quick() { // positions up to the largest int32 (thorough tier: 256 MiB bitmaps)
 		const maxI32 = int64(1)<<31 - 1
+		// bitmaps LONGER than int32 positions reach (2^25 + 1 .. 2^26 + 3 words): every non-negative probe is inside
+		for _, nw := range []int64{1 << 26, 1<<26 + 3, 1<<25 + 1, 1<<26 - 1} {
+			ones := []int64{0, 5, 63, 64, 1 << 16, 1<<30 + 1, maxI32, maxI32 - 64, int64(r.Intn(1 << 30))}
+			sortI64(ones)
+			probes := []int64{0, 5, 6, 63, 64, 65, 1 << 16, 1<<16 + 1, 1<<30 + 1, 1 << 30, maxI32, maxI32 - 1, maxI32 - 64, -1, -64, -(1 << 31), -(1 << 31) + 5, -(1 << 30), int64(r.Intn(1 << 31))}
+			g.Case("getbig", J{"bm": J{"nw": nw, "ones": ones}, "probes": probes})
+		}
 		for c := 0; c < 10; c++ {
 			last := []int64{maxI32, maxI32 - 1, maxI32 - 63, maxI32 - 64, 1 << 30, 1<<30 - 1, maxI32 - 65, 1<<31 - 128, maxI32, 1<<30 + 64}[c]
 			pos := []int64{0, 63, 64, 1 << 16, 1<<30 - 1, 1 << 30}
@@ -1137,6 +1170,46 @@ func genC12(g *Gen) {
 				}
 				subs[s] = append(subs[s], p)
 				p++
+			}
+			base += sizes[s]
+		}
+		g.Case("ofmany", J{"subs": subs, "sizes": sizes})
+	}
+	// DENSE segments (all positions but 0..3 holes), sizes of whole words and not, with positions that overshoot the
+	// segment size into the next, dense, segment (the same bit listed twice; a word that is full except for one hole
+	// right behind 64 consecutive listed positions)
+	for i := 0; i < g.N(150, 5000); i++ {
+		k := 2 + r.Intn(3)
+		subs := make([][]int64, k)
+		sizes := make([]int64, k)
+		total := int64(0)
+		for s := range sizes {
+			sizes[s] = []int64{64, 64, 128, 65, 63, 100, 192}[r.Intn(7)]
+			total += sizes[s]
+		}
+		base := int64(0)
+		for s := 0; s < k; s++ {
+			holes := map[int64]bool{}
+			for h := r.Intn(4); h > 0; h-- {
+				holes[int64(r.Intn(int(sizes[s])))] = true
+			}
+			if r.Intn(3) == 0 {
+				holes[1] = true // the second bit of the segment: right behind an overshoot of one
+			}
+			subs[s] = []int64{}
+			for p := int64(0); p < sizes[s]; p++ {
+				if !holes[p] {
+					subs[s] = append(subs[s], p)
+				}
+			}
+			if s < k-1 && r.Intn(2) == 0 { // overshoot by 1..3 positions (or up to a word) into the next segment
+				for e, n := sizes[s], 1+r.Intn(3); n > 0 && base+e < total; n-- {
+					subs[s] = append(subs[s], e)
+					e += 1 + int64(r.Intn(2))
+					if r.Intn(6) == 0 {
+						e += int64(r.Intn(64))
+					}
+				}
 			}
 			base += sizes[s]
 		}
